@@ -199,7 +199,7 @@ def run_load(name, fmt, api, data, consume=("exhaust", 0), knobs=None, budget=No
     disk.put(name, data)
     del _SPY[:]
     rec = {"exc": None, "frames": [], "finished": None, "warnings": []}
-    with seams.Installed(disk), warnings.catch_warnings(record=True) as wlist, Steps(budget, cover=cover) as st:
+    with seams.Installed(disk), seams.MemPoison(knobs.get("mem")), warnings.catch_warnings(record=True) as wlist, Steps(budget, cover=cover) as st:
         # environment knob: the caller runs with warnings promoted to errors (python -W error)
         warnings.simplefilter("error" if knobs.get("warnings") == "error" else "always")
         try:
